@@ -435,7 +435,8 @@ uint8_t
 oscore_increment_sender_seq(oscore_ctx_t *ctx) {
   ctx->sender_context->seq++;
 
-  if (ctx->sender_context->seq >= OSCORE_SEQ_MAX) {
+  /* seq - 1 has just been used: it has to be less than OSCORE_SEQ_MAX */
+  if (ctx->sender_context->seq > OSCORE_SEQ_MAX) {
     return 0;
   } else {
     return 1;
